@@ -488,7 +488,9 @@ fn ctr_inc_mass(ctr: &mut Counters) {
 
 /// root -> 2..3 inner nodes -> 150..255 children each: new leaves with small data when `live` is
 /// empty, otherwise DISTINCT existing nodes of live trees (as many as there are).
-fn mass_tree(rng: &mut Rng, vals: &mut Values, live: &[usize], st: &mut GenStats) -> GNode {
+fn mass_tree(rng: &mut Rng, vals: &mut Values, forest: &Forest, live: &[usize], st: &mut GenStats) -> GNode {
+	// the reader renders at most 200 000 nodes of a tree's logical expansion: stay well below
+	const MAX_EXPANDED: usize = 60_000;
 	let inner = rng.range(2, 3) as usize;
 	let mut pool: Vec<usize> = live.to_vec();
 	// seeded shuffle
@@ -507,9 +509,13 @@ fn mass_tree(rng: &mut Rng, vals: &mut Values, live: &[usize], st: &mut GenStats
 				st.new_nodes += 1;
 				st.expanded += 1;
 			} else if let Some(id) = pool.pop() {
+				let e = forest.nodes[&id].expanded;
+				if st.expanded + e > MAX_EXPANDED {
+					continue
+				}
 				ch.push(GRef::Existing(id));
 				st.existing += 1;
-				st.expanded += 1;
+				st.expanded += e;
 			}
 		}
 		st.max_fan = std::cmp::max(st.max_fan, ch.len());
@@ -810,6 +816,13 @@ impl<'a> Case<'a> {
 	fn check_tree(&mut self, ci: usize, key: &[u8]) {
 		if let Some(r) = self.forests[ci].roots.get(key) {
 			let size: usize = r.children.iter().map(|c| self.forests[ci].nodes[c].expanded).sum();
+			if size > 150_000 {
+				// the reader renders at most 200 000 nodes of the logical expansion: a tree this large
+				// (many shared subtrees) is compared through its root only
+				self.ctr.inc("tree.too_large_to_render");
+				self.check_root(ci, key);
+				return
+			}
 			if size > 300 {
 				self.big_reads += 1;
 				if self.big_reads % 4 != 0 {
@@ -1511,9 +1524,9 @@ impl<'a> Case<'a> {
 		let mut wide = shape.wide;
 		let g = if let Some(first) = shape.mass {
 			if first {
-				mass_tree(rng, &mut self.vals, &[], &mut st)
+				mass_tree(rng, &mut self.vals, wf, &[], &mut st)
 			} else {
-				mass_tree(rng, &mut self.vals, &live, &mut st)
+				mass_tree(rng, &mut self.vals, wf, &live, &mut st)
 			}
 		} else if wide.is_some() && rng.chance(1, 2) {
 			// the wide node sits one level down
